@@ -347,8 +347,11 @@ def scen_c12(ops, reentrant, ctor_timeouts, t_arg, poll, overshoot, fault_call=-
         if devs:
             break
     # -- final probes (only when the sequence ran through): every party can acquire iff the model says free
+    close_refused = faulted and FAULT_CALLS[pick(fault_call, 4)] == 'close' and K.calls['close'] > fault_idx
     K.faults.clear()    # faults belong to the sequence, not to the probes
-    if not devs and not blocked:
+    if close_refused:
+        pass            # the kernel refused to close a descriptor: whatever it still holds is not the library's residue
+    elif not devs and not blocked:
         for i in range(nobj):
             for t in (0, 1):
                 exp = ref.can(i, t)
